@@ -339,3 +339,26 @@ func deepEndApp(t *tape.Tape) *app.App {
 	a.Index()
 	return a
 }
+
+// bigRecordApp: two nodes that each load a value of tens of kilobytes (within a 65535-byte limit, not
+// shown on the page), so that the saved session is a record of more than 64 KiB once both are held
+// (selectors: 1 -> deeper, 0 -> back).
+func bigRecordApp(t *tape.Tape) *app.App {
+	t.Begin("bigrecord")
+	defer t.End()
+	a := &app.App{Root: "root", Labels: map[string]map[string]string{}}
+	la, lb := t.Range(30000, 65535), t.Range(36000, 65535)
+	a.Ext = append(a.Ext,
+		&app.ExtSym{Name: "sa", Size: 65535, Script: []app.ExtBehav{{Len: la}}},
+		&app.ExtSym{Name: "sb", Size: 65535, Script: []app.ExtBehav{{Len: lb}}})
+	a.Nodes = append(a.Nodes, &app.Node{Name: "root", Kind: app.KMenu, Tpl: map[string]string{"": "@root|pick$"}, Code: []app.Inst{
+		{Op: app.LOAD, A: "sa", N: 65535}, {Op: app.MOUT, A: "la", B: "1"}, {Op: app.HALT}, {Op: app.INCMP, A: "nb", B: "1"}}})
+	a.Nodes = append(a.Nodes, &app.Node{Name: "nb", Kind: app.KMenu, Tpl: map[string]string{"": "@nb|deeper$"}, Code: []app.Inst{
+		{Op: app.LOAD, A: "sb", N: 65535}, {Op: app.MOUT, A: "lc", B: "0"}, {Op: app.MOUT, A: "la", B: "1"}, {Op: app.HALT},
+		{Op: app.INCMP, A: "_", B: "0"}, {Op: app.INCMP, A: "nc", B: "1"}}})
+	a.Nodes = append(a.Nodes, &app.Node{Name: "nc", Kind: app.KMenu, Tpl: map[string]string{"": "@nc|deepest$"}, Code: []app.Inst{
+		{Op: app.MOUT, A: "lc", B: "0"}, {Op: app.HALT}, {Op: app.INCMP, A: "_", B: "0"}}})
+	a.Nodes = append(a.Nodes, &app.Node{Name: "_catch", Kind: app.KCatch, Tpl: map[string]string{"": "@_catch|oops$"}, Code: []app.Inst{{Op: app.HALT}, {Op: app.MOVE, A: "_"}}})
+	a.Index()
+	return a
+}
